@@ -2,7 +2,10 @@
 
 package evaluator
 
-import "strconv"
+import (
+	"strconv"
+	"strings"
+)
 
 // C15 — events run their handlers in order, isolated, on shared globals.
 //
@@ -31,32 +34,43 @@ var zzEvStrings = []string{"", "a", "ñ", "Enter"}
 // handler body: uses the payload (if named), a local, and the shared global
 func zzHandlerBody(ek zzEvKind, form int) string {
 	b := "    loc := cnt * 10\n    cnt = cnt + 1\n"
-	switch form {
-	case 0: // full parameter list
-		b += "    print \"" + ek.name + "\" loc"
-		for _, n := range ek.names {
+	b += "    print \"" + ek.name + "\" loc"
+	for j, n := range ek.names {
+		if zzNamed(ek, form, j) {
 			b += " " + n
 		}
-		b += "\n"
-		if ek.types[0] == "num" {
-			b += "    sum = sum + " + ek.names[0] + "\n"
-		}
-	default: // empty list or `_` parameters: the payload is ignored
-		b += "    print \"" + ek.name + "\" loc\n"
+	}
+	b += "\n"
+	if ek.types[0] == "num" && zzNamed(ek, form, 0) {
+		b += "    sum = sum + " + ek.names[0] + "\n"
 	}
 	return b
 }
 
-func zzParamList(ek zzEvKind, form int) string {
+// zzNamed: is parameter j named (bound) under the signature form?
+func zzNamed(ek zzEvKind, form, j int) bool {
 	switch form {
 	case 0:
-		return " " + ek.params
-	case 1:
+		return true
+	case 3: // `_` for the first parameter, the rest named
+		return j > 0
+	case 4: // the last parameter is `_`
+		return j < len(ek.types)-1
+	}
+	return false
+}
+
+func zzParamList(ek zzEvKind, form int) string {
+	if form == 1 {
 		return ""
 	}
 	s := ""
-	for _, t := range ek.types {
-		s += " _:" + t
+	for j, t := range ek.types {
+		if zzNamed(ek, form, j) {
+			s += " " + ek.names[j] + ":" + t
+		} else {
+			s += " _:" + t
+		}
 	}
 	return s
 }
@@ -71,7 +85,7 @@ func ZZC15Events() {
 	forms := make([]int, H)
 	for i := 0; i < H; i++ {
 		kinds[i] = zzEvKinds[(rot+i)%len(zzEvKinds)]
-		forms[i] = zzChoice("form", 3)
+		forms[i] = zzChoice("form", 5)
 	}
 	src := "cnt := 0\nsum := 0\nprint \"top\" cnt sum\n"
 	twin := src
@@ -81,7 +95,7 @@ func ZZC15Events() {
 		// twin: a procedure with the full, named parameter list
 		tb := body
 		twin += "func h" + ek.name + " " + ek.params + "\n" + tb
-		if forms[i] != 0 { // parameters must be used in a func: mention them harmlessly
+		if true { // parameters must be used in a func: mention them harmlessly
 			for _, n := range ek.names {
 				twin += "    if " + n + " == " + n + "\n    end\n"
 			}
@@ -116,14 +130,14 @@ func ZZC15Events() {
 				if j == 0 {
 					first = f
 				}
-				if forms[hi] == 0 {
+				if zzNamed(ek, forms[hi], j) {
 					line += " " + zzN(f)
 				}
 				calls += " (0+" + "pl" + strconv.Itoa(e) + strconv.Itoa(j) + ")"
 			} else {
 				s := zzEvStrings[zzChoice("str", len(zzEvStrings))]
 				params = append(params, s)
-				if forms[hi] == 0 {
+				if zzNamed(ek, forms[hi], j) {
 					line += " " + s
 				}
 				calls += " " + strconv.Quote(s)
@@ -133,7 +147,7 @@ func ZZC15Events() {
 		err := ev.HandleEvent(Event{Name: ek.name, Params: params})
 		zzAssert(err == nil, "C15: handler runs without error")
 		cnt++
-		if forms[hi] == 0 && ek.types[0] == "num" {
+		if zzNamed(ek, forms[hi], 0) && ek.types[0] == "num" {
 			sum = sum + first
 		}
 		want += "|" + line + "\n"
@@ -144,5 +158,47 @@ func ZZC15Events() {
 		zzAssert(!leaked, "C15: handler locals do not leak into the global scope")
 	}
 	zzReach("events-ok")
+	zzWitness("end")
+}
+
+// ZZC15Scopes: the handler body is a generated block (shadowing declarations
+// with a probe of the enclosing x before and after, loops, break, return);
+// N events of the same kind must behave like N calls of the procedure with
+// the same body: fresh locals on every event, globals shared.
+func ZZC15Scopes() {
+	N := zzParam("NE", 2)
+	cfg := &zzGenCfg{maxDepth: zzParam("SD", 2), lens: []int{2, zzParam("SL", 2), 1, 1}}
+	ctr := 0
+	body := zzGenBlock(cfg, 1, false, true, &ctr) // a function-like body at depth 1 (may declare a local x)
+	var sb strings.Builder
+	sb.WriteString("x := 1\nc0 := true\nc1 := false\nprint \"top\" x c0 c1\non animate t:num\n    print \"ev\" t\n")
+	zzRenderBlock(&sb, body, 1, zzLayout{})
+	sb.WriteString("end\n")
+	p := &zzPlat{}
+	ev := NewEvaluator(p)
+	prog := zzMustParse(ev, sb.String(), "C15 scopes")
+	if prog == nil {
+		return
+	}
+	x, c0, c1 := zzFloat64("x"), zzBool("c0"), zzBool("c1")
+	zzSetNum(prog, 0, x)
+	zzSetBool(prog, 1, c0)
+	zzSetBool(prog, 2, c1)
+	err := ev.Eval(prog)
+	zzAssert(err == nil, "C15 scopes: top-level code runs")
+	// reference: N calls of the procedure with that body
+	g := map[string]*float64{}
+	xv := x
+	g["x"] = &xv
+	r := &zzRef{global: g, scopes: []map[string]*float64{g}, c0: c0, c1: c1, fn: body}
+	r.out("top " + zzN(x) + " " + strconv.FormatBool(c0) + " " + strconv.FormatBool(c1))
+	for k := 0; k < N; k++ {
+		herr := ev.HandleEvent(Event{Name: "animate", Params: []any{float64(k)}})
+		zzAssert(herr == nil, "C15 scopes: handler runs")
+		r.out("ev " + strconv.Itoa(k))
+		r.stmt(&zzSt{kind: "call"})
+		zzAssert(p.out() == strings.Join(r.trace, "|"), "C15 scopes: every event runs the handler in a fresh local scope on the shared globals, like a procedure call")
+	}
+	zzReach("scopes-ok")
 	zzWitness("end")
 }
